@@ -121,13 +121,25 @@ BrokenInvariant ==
               /\ Step_NoSharedIdent) THEN "inv-Step"
     ELSE "OK"
 
+\* attribution (the verdict is already there): a failing expression clause where the logged
+\* statements and the expected ones are equal for Python's == and differ only in the kinds of
+\* constants (C20_Imperative: the trees, and hence the clauses, are strict about kinds)
+KindsOnly(ev, v) ==
+    LET o == ev.out  nA == Len(last.SA)  exp == RenameStream(last.SB, last.sg) IN
+    CASE v \in {"dis-lhs", "dis-rhs", "dis-cond"} /\ ev.op = "dis" -> KindOnly(o.B2, exp)
+      [] v = "fuse-body-changed" /\ Len(o.R) = nA + Len(last.SB) ->
+            KindOnly(SubSeq(o.R, nA + 1, Len(o.R)), IF ev.op = "daf" THEN exp ELSE last.SB)
+      [] OTHER -> FALSE
+
 ReportEvent ==
     l > 0 =>
       /\ verdict = "OK" =>
             (BrokenInvariant = "OK" \/ Line(l, BrokenInvariant, "", {}, {}))
       /\ verdict # "OK" =>
             LET names == DisCulprits(last.SA, last.SB, last.flt, last.sg, verdict) IN
-            Line(l, verdict, IF names = {} THEN "" ELSE WhyOf(last.SA, last.SB, names), names, {})
+            Line(l, verdict, IF names # {} THEN WhyOf(last.SA, last.SB, names)
+                             ELSE IF KindsOnly(Rec.ev[l], verdict) THEN "constant-kind-only" ELSE "",
+                 names, {})
 
 ReportFinalDot ==
     (Rec.k = "hist" /\ l = NEv(Rec) /\ Rec.dot.r # "none") =>
